@@ -348,6 +348,14 @@ func (p *Parser) parseOuterTemplate() ([]Node, error) {
 
 // Parse an expression
 func (p *Parser) parseExpression() (Node, error) {
+	// every nested expression - an operand in parentheses, an argument of a
+	// filter, function or test, an index, an element - comes through here
+	if p.depth >= maxNestingDepth {
+		return nil, fmt.Errorf("expression nested more than %d levels deep", maxNestingDepth)
+	}
+	p.depth++
+	defer func() { p.depth-- }()
+
 	// Parse a chain of binary operators by precedence climbing
 	expr, err := p.parseBinaryExpression(PREC_LOWEST)
 	if err != nil {
